@@ -221,12 +221,22 @@ def eigmax_closed_form(D):
     return max(abs(e1), abs(e3))
 
 
-def rhs_line(sc, params, L, s, Sd, y):
+def regime_at(sc, t):
+    """the regime eval_rhs uses at time t (constant, or switched by a get_regime callable)"""
+    sw = sc.get("regime_switch")
+    if not sw:
+        return sc["regime"]
+    r1, r2, ts = sw
+    return r1 if t < ts else r2
+
+
+def rhs_line(sc, params, L, s, Sd, y, t=None):
     ass = [int(p) for p in params["phase_assemblage"]]
     fl = ([float(x) for x in params["phase_fractions"]] + list(L.reshape(-1)) + [s] + list(Sd.reshape(-1))
           + [params["stress_exponent"], params["deformation_exponent"], params["nucleation_efficiency"],
              params["gbm_mobility"]] + list(y))
-    return common.model_line("rhs", [sc["regime"], sc["pair"][0], sc["pair"][1], sc["n"]] + ass, fl)
+    regime = sc["regime"] if t is None else regime_at(sc, t)
+    return common.model_line("rhs", [regime, sc["pair"][0], sc["pair"][1], sc["n"]] + ass, fl)
 
 
 def update_line(sc, params, prev_o, y_last):
